@@ -839,8 +839,8 @@ func TestReferenceVectors(t *testing.T) {
 // ---------- (i)-(v): sign, mutate, cross-query ----------
 
 func TestSignMutate(t *testing.T) {
-	nflips := ev.Pick(14, 40)
-	ev.Check(t, ev.N(300, 60_000), func(t *rapid.T) {
+	nflips := ev.Pick(14, 32)
+	ev.Check(t, ev.N(300, 40_000), func(t *rapid.T) {
 		signMutateCase(t, nflips, false)
 	})
 }
@@ -848,7 +848,7 @@ func TestSignMutate(t *testing.T) {
 // TestAllBits flips every single bit of the encoding (thorough: many
 // transactions; quick: a few), without the re-encoding legs.
 func TestAllBits(t *testing.T) {
-	ev.Check(t, ev.N(8, 4_000), func(t *rapid.T) {
+	ev.Check(t, ev.N(8, 2_400), func(t *rapid.T) {
 		signMutateCase(t, 0, true)
 	})
 }
